@@ -29,21 +29,26 @@ const qFactorWeightingKey = "q"
 func sortedMimes(accept string) (sorted []mime) {
 	for _, each := range strings.Split(accept, ",") {
 		typeAndQuality := strings.Split(strings.Trim(each, " "), ";")
-		if len(typeAndQuality) == 1 {
-			sorted = insertMime(sorted, mime{typeAndQuality[0], 1.0})
-		} else {
-			// take factor
-			qAndWeight := strings.Split(typeAndQuality[1], "=")
+		// optional whitespace around ";" and "=" is not part of the media type or the weight
+		media := strings.Trim(typeAndQuality[0], " ")
+		quality := 1.0
+		valid := true
+		// the weight is not necessarily the first parameter
+		for _, param := range typeAndQuality[1:] {
+			qAndWeight := strings.Split(param, "=")
 			if len(qAndWeight) == 2 && strings.Trim(qAndWeight[0], " ") == qFactorWeightingKey {
-				f, err := strconv.ParseFloat(qAndWeight[1], 64)
+				f, err := strconv.ParseFloat(strings.Trim(qAndWeight[1], " "), 64)
 				if err != nil {
 					traceLogger.Printf("unable to parse quality in %s, %v", each, err)
+					valid = false
 				} else {
-					sorted = insertMime(sorted, mime{typeAndQuality[0], f})
+					quality = f
 				}
-			} else {
-				sorted = insertMime(sorted, mime{typeAndQuality[0], 1.0})
+				break
 			}
+		}
+		if valid {
+			sorted = insertMime(sorted, mime{media, quality})
 		}
 	}
 	return
